@@ -181,6 +181,11 @@ def url_structs(draw, dirty=True, userinfo=True, max_segments=4, max_items=4, we
             vk = draw(st.integers(0, 4))
             v = None if vk == 0 else ("" if vk == 1 else tx("qvalue", 1, 3))
             items.append([k, v])
+        if dirty and draw(st.integers(0, 7)) == 0:   # empty items: '?&', 'a=1&&b=2', trailing '&'
+            for _ in range(draw(st.integers(1, 2))):
+                items.insert(draw(st.integers(0, len(items))), ["", None])
+        if dirty and draw(st.integers(0, 15)) == 0:
+            items = [["", None]] * draw(st.integers(1, 2))   # a query made of separators only
         s["query"] = items
     f = draw(st.integers(0, 4))
     s["fragment"] = None if f < 3 else ("" if (f == 3 and dirty) else tx("fragment", 1, 3))
